@@ -239,7 +239,7 @@ pub fn run(ctx: &Ctx) -> (Report, Meta) {
     }
 
     // ------------------------------------------------------------------ O3 empirical interior error
-    let nprob = ctx.size(8, 32);
+    let nprob = ctx.size(8, 64);
     let th33: Vec<f64> = (0..=32).map(|k| k as f64 / 32.0).collect();
     for &m in [Method::RK4, Method::RK23, Method::DOPRI5, Method::DOP853, Method::RADAU].iter() {
         let mname_ = mname(m);
@@ -336,7 +336,7 @@ pub fn run(ctx: &Ctx) -> (Report, Meta) {
     }
 
     // ------------------------------------------------------------------ BDF: interior vs endpoint accuracy on whole runs
-    let nb = ctx.size(60, 1500);
+    let nb = ctx.size(200, 10_000);
     for i in 0..nb {
         let case_id = format!("bdf/{}", i);
         if !ctx.want(&case_id) {
